@@ -45,6 +45,9 @@ func main() {
 		noEvid   = flag.Bool("no-evidence", false, "internal: do not write evidence (mutant runs)")
 		verbose  = flag.Bool("v", false, "print every obligation")
 		selftest = flag.Bool("selftest", false, "run the sensitivity mutants of -property (or of all properties) and report caught/missed")
+		bfuzz    = flag.Bool("benignfuzz", false, "behaviour-preserving transformation sweep: every new finding is a false alarm")
+		bfOnly   = flag.String("benignfuzz-file", "", "restrict -benignfuzz to files whose path contains this string")
+		ovl      = flag.String("overlay", "", "internal: <repo file>=<replacement file> (used by -benignfuzz)")
 	)
 	flag.Parse()
 	start := time.Now()
@@ -62,12 +65,29 @@ func main() {
 	if *selftest {
 		os.Exit(runSelftest(*repo, *verif, *prop))
 	}
+	if *bfuzz {
+		os.Exit(runBenignFuzz(*repo, *verif, *bfOnly))
+	}
 	if *explain != "" {
 		os.Exit(explainReplay(*repo, *verif, *explain))
 	}
 
 	var overlay map[string][]byte
-	if *mutant != "" {
+	if *ovl != "" {
+		parts := strings.SplitN(*ovl, "=", 2)
+		if len(parts) == 2 {
+			b, err := os.ReadFile(parts[1])
+			if err != nil {
+				fmt.Println("MUTANT-SKIP:", err)
+				os.Exit(3)
+			}
+			overlay = map[string][]byte{parts[0]: b}
+			if *mutant == "" {
+				*mutant = "overlay"
+			}
+		}
+	}
+	if *mutant != "" && *mutant != "overlay" {
 		var err error
 		overlay, err = mutantOverlay(*repo, *mutant)
 		if err != nil {
